@@ -329,8 +329,7 @@ func runC13(c *Ctx) {
 			for _, f := range w.factsAt(cs) {
 				// (a) bind == nil
 				if v, isNil, ok := nilFact(f); ok && isNil {
-					all := true
-					ls := liveLeaves(v)
+					ls, all := w.deepLeaves(v, func(h *ssa.Function) bool { return h == bindFn }, 3)
 					for _, l := range ls {
 						lc, _ := callOf(l)
 						if lc == nil || lc.Call.StaticCallee() != bindFn {
